@@ -10,7 +10,12 @@ from .facts import AnalysisBroken
 
 VERIF = F.VERIF
 EVIDENCE_DIR = os.path.join(VERIF, "evidence")
+if os.environ.get("VERIF_REPO") and os.path.realpath(os.environ["VERIF_REPO"]) != os.path.realpath("/repo"):
+    # a run against a scratch copy (sensitivity runs, seeds, refactorings): its evidence and reports are not /repo's
+    EVIDENCE_DIR = os.path.join(os.environ["VERIF_REPO"], ".verif-evidence")
 REPORT_DIR = os.path.join(VERIF, "reports")
+if os.environ.get("VERIF_REPO") and os.path.realpath(os.environ["VERIF_REPO"]) != os.path.realpath("/repo"):
+    REPORT_DIR = os.path.join(os.environ["VERIF_REPO"], ".verif-reports")
 KNOWN = os.path.join(VERIF, "known_findings.json")
 
 
